@@ -127,7 +127,10 @@ Definition method_mods : list ttype := [TPrivate; TProtected; TFinal; TOverride;
 (* an annotation  [ ... ]  in front of a declaration *)
 Inductive Annot : list tok -> Prop :=
 | An_none : Annot []
-| An_some o body c : tty o = TOSqrBracket -> Forall (fun t => tty t <> TCSqrBracket) body -> tty c = TCSqrBracket ->
+| An_some o body c : tty o = TOSqrBracket ->
+    (* the tokens between the brackets: none closes the annotation, none starts or ends a method (parse_annotations stops there) *)
+    Forall (fun t => existsb (tt_eqb (tty t)) [TCSqrBracket; TProc; TFunc; TEndProc; TEndFunc; TEnd] = false) body ->
+    tty c = TCSqrBracket ->
     Annot (o :: body ++ [c]).
 
 Lemma annot_parses ats r : Annot ats -> (ats = [] -> nostart [TOSqrBracket] r) ->
@@ -140,9 +143,9 @@ Proof.
     eapply Parses_bind.
     { apply Parses_opt_some. unfold annotation_body. eapply Parses_bind.
       - apply take_until_ok.
-        + eapply Forall_impl; [|exact Hb]. intros t Ht. cbv beta in Ht. cbn [existsb]. rewrite (tt_eqb_neq _ _ Ht). reflexivity.
+        + exact Hb.
         + cbn [existsb]. rewrite Hc. reflexivity.
-      - cbv beta. cbn [snd]. apply Parses_ret. }
+      - cbv beta. cbn [snd]. rewrite Hc. cbn [tt_eqb]. apply Parses_ret. }
     cbv beta iota. apply Parses_ret.
 Qed.
 
